@@ -80,14 +80,16 @@ def make_scratch(pid_tag, cfg):
     with open(os.path.join(dst, ".cargo", "config.toml"), "a") as f:
         f.write("\n[net]\noffline = true\n")
     # (b) harness modules: one appended line per target file, #[path] to /verif
-    for i, (hfile, target, cfgname) in enumerate(cfg.get("inject", [])):
+    for i, inj in enumerate(cfg.get("inject", [])):
+        hfile, target, cfgname = inj[0], inj[1], inj[2]
+        vis = inj[3] + " " if len(inj) > 3 else ""
         tpath = os.path.join(dst, target)
         if not os.path.exists(tpath):
             raise Inconclusive("anchor file missing: " + target)
         habs = os.path.join(VERIF, hfile)
         modname = "__verif_" + re.sub(r"[^a-z0-9]", "_", hfile.lower())
         with open(tpath, "a") as f:
-            f.write('\n#[cfg(%s)]\n#[path = "%s"]\nmod %s;\n' % (cfgname, habs, modname))
+            f.write('\n#[cfg(%s)]\n#[path = "%s"]\n%smod %s;\n' % (cfgname, habs, vis, modname))
     # (c) crate-level feature gates when a harness needs them
     for target, line in cfg.get("crate_attrs", []):
         tpath = os.path.join(dst, target)
